@@ -163,7 +163,9 @@ func WithMaxAttempts(ctx context.Context, opts Options, n int, fn func() error) 
 
 	opts.MaxRetries = n - 1
 	var err error
-	for r := StartWithCtx(ctx, opts); r.Next(); {
+	// MaxRetries = 0 (n = 1) means "no limit" to Next: count the calls here too.
+	calls := 0
+	for r := StartWithCtx(ctx, opts); calls < n && r.Next(); calls++ {
 		err = fn()
 		if err == nil {
 			return nil
